@@ -127,6 +127,11 @@ def run_case(case):
         res['violations'].append({'mech': mech, 'detail': detail[:500], 'witness': w})
 
     out = None
+    hook = False
+    if prop == 'C03':
+        from vf.monitor import probes
+        hook = probes.install_renamer_hook()
+        probes.take_records()
     try:
         ptree = ast.parse(src)
         compile(src, 'p', 'exec', dont_inherit=True)
@@ -191,6 +196,14 @@ def run_case(case):
     elif r.diffs:
         return {'status': 'inconclusive', 'reason': 'structure-differs (decided by C05)'}
     if prop == 'C03':
+        if hook:
+            for rec in probes.take_records():
+                res['counters']['renamer_hook_invocations'] = res['counters'].get('renamer_hook_invocations', 0) + 1
+                res['counters']['renamer_hook_bindings_checked'] = res['counters'].get('renamer_hook_bindings_checked', 0) + rec['bindings']
+                for pr in rec['problems'][:3]:
+                    viol(None, 'renamer hook invariant (auxiliary): ' + pr)
+        else:
+            res['counters']['renamer_hook_not_attached'] = 1
         for p in r.problems:
             if p['kind'] in C03_KINDS:
                 mech = None
